@@ -54,7 +54,7 @@ TIERS = {
                    dict(MaxNodes=6, NodeKinds={"pkg_t", "law_d", "law_u"}, Ordered=True)],
         runs=[("probe", 0), ("plain", 1), ("preuse", 2), ("plain", 12345)]),
 }
-P_INV = ["PTypeOK", "FlagTrueAtEnd", "DisabledExactlyAroundDocumentedMembers", "MembersExecuted", "LogAdmitted",
+P_INV = ["PTypeOK", "OwnDocstring", "FlagTrueAtEnd", "DisabledExactlyAroundDocumentedMembers", "MembersExecuted", "LogAdmitted",
          "RegularShapesDecided", "EvalMembersOn"]
 W_INV = ["WTypeOK", "OnePagePerDocumentedNode", "NeverTwice", "NothingFromPrunedDirs",
          "PackagePagesListTheirChildren", "WFlagTrueAtEnd"]
@@ -70,7 +70,7 @@ def replay_shape(case):
     from symplyphysics.docs.parse import find_members_and_functions
     from symplyphysics.docs.patch import patch_sympy_evaluate
     from . import c19_probe as probe
-    kinds, exp, req, dm = case["m"], case["x"], case["r"], case["dm"]
+    kinds, exp, req, dm, ow = case["m"], case["x"], case["r"], case["dm"], case["ow"]
     problems = []
     # every docstring directly follows a public assignment (the only form in the real tree): members fully decided
     regular = all(kinds[j - 1] == "pubassign" for j in range(1, len(kinds)) if kinds[j] in DOC_KINDS)
@@ -104,6 +104,17 @@ def replay_shape(case):
         if [f.name for f in functions] != want_f:
             problems.append(f"v{variant}: documented functions reported {[f.name for f in functions]}, the shape has {want_f}")
         by_name = {m.name: m for m in members}
+        # the docstring attributed to every reported member (texts carry the index of their statement)
+        for m in members:
+            mi = re.match(r"_?a(\d+)$", m.name)
+            dj = re.search(r"Doc (\d+)", m.docstring or "")
+            if mi is None or dj is None:
+                problems.append(f"v{variant}: reported member {m.name} with docstring {m.docstring!r}")
+                continue
+            i, j = int(mi.group(1)), int(dj.group(1))
+            if ow[j - 1] != i:
+                problems.append(f"v{variant}: member {m.name} (statement {i}) is reported with the docstring of statement {j}, "
+                                f"which {'belongs to statement ' + str(ow[j - 1]) if ow[j - 1] else 'follows an assignment without a name and belongs to no member'}")
         for i, is_member in enumerate(dm, start=1):
             if not is_member:
                 continue
@@ -133,7 +144,7 @@ def patch_layer(run: Run, sc: Path, t: dict, pool, tier: str) -> None:
     cfgd = t["patch_emit"]
     label = f"patch{cfgd['MaxStmts']}"
     cfg2 = write_cfg(sc / f"{label}_emit.cfg", init="PInit", next_="PBuild", constants=dict(NOP, **cfgd),
-                     invariants=["PEmit", "PTypeOK", "RegularShapesDecided", "EvalMembersOn"])
+                     invariants=["PEmit", "PTypeOK", "RegularShapesDecided", "EvalMembersOn", "OwnDocstring"])
     res2 = run_tlc("DocGen", cfg2, sc, workers=1, allow_violation=False)
     run.add_tlc(res2, f"patch/flag layer emission: every module shape up to {cfgd['MaxStmts']} statements over "
                       f"{len(cfgd['StmtKinds'])} kinds with the declarative expectation Exp (+ RegularShapesDecided, EvalMembersOn)")
@@ -162,7 +173,10 @@ def patch_layer(run: Run, sc: Path, t: dict, pool, tier: str) -> None:
 
 DOC_INIT = '"""\nPackage {name}\n{ul}\n\nDescription of {name}.\n"""\n'
 LAW_DOC = ('"""\nLaw {name}\n{ul}\n\nDescription of {name}.\n"""\n\nfrom sympy import Symbol, Add\n\n'
-           'x = Symbol("x")\n"""\nA symbol.\n"""\n\nlaw = Add(x, x)\n"""\n:laws:symbol::\n\n:laws:latex::\n"""\n\n'
+           'x = Symbol("x")\n"""\nThe symbol of {name}.\n"""\n\n'
+           'first, second = 1, 2\n"""\nText after a tuple assignment of {name}.\n"""\n\n'
+           'law = Add(x, x)\n"""\nThe law of {name}.\n\n:laws:symbol::\n\n:laws:latex::\n"""\n\n'
+           '__import__("harness.c19_probe", fromlist=["BOX"]).BOX.d["{name}"] = 1\n"""\nText after a subscript assignment of {name}.\n"""\n\n'
            'def calculate_pair(first: "Symbol", second: tuple[int, int] = (1, 2), *rest: int, flag: bool = False,\n'
            '    **options: object) -> tuple[int, int]:\n    """\n    Returns a pair.\n    """\n    return second\n\n\n'
            '@__import__("functools").lru_cache(maxsize=None)\n'
@@ -299,6 +313,11 @@ def replay_tree(case):
             text = (work / "out" / (_stem(case, names, i) + ".rst")).read_text()
             if ":code:`x + x`" not in text or ":laws:" in text:
                 problems.append(f"law page {_stem(case, names, i)} does not show the formula as written")
+            own = {b[1]: b[2] for b in page_blocks(text) if b[0] == "data"}
+            nm = names[i]
+            if sorted(own) != ["law", "x"] or f"The symbol of {nm}." not in own["x"] or f"The law of {nm}." not in own["law"] \
+                    or "Text after a" in text:
+                problems.append(f"law page {_stem(case, names, i)}: members {sorted(own)} are not listed with their own descriptions")
             if ".. py:function:: calculate_pair(" not in text or ".. py:function:: calculate_optional(" not in text:
                 problems.append(f"law page {_stem(case, names, i)} does not list the module's documented functions")
     return case, problems
@@ -418,7 +437,8 @@ def extract_members(path_str: str):
                 value = ns[name]
                 doc = tree.body[i + 1].value.value
                 rec = {"name": name, "kind": kinds[i + 1], "has_symbol_dir": ":laws:symbol::" in doc,
-                       "has_latex_dir": ":laws:latex::" in doc}
+                       "has_latex_dir": ":laws:latex::" in doc,
+                       "doc_lines": [l.strip() for l in str(doc).splitlines() if l.strip() and ":laws:" not in l]}
                 if isinstance(value, (DimensionSymbol, Symbolic)):
                     rec["row"] = [code_str(value), latex_str(value), print_dimension(value.dimension)]
                 if rec["has_symbol_dir"]:
@@ -462,6 +482,14 @@ def compare_page(text: str, members: list) -> list[str]:
                         f"{[m['name'] for m in members]}")
         return problems
     for (name, block), m in zip(blocks, members):
+        have = [l.strip() for l in block.splitlines()]
+        pos = 0
+        for line in m.get("doc_lines", []):
+            try:
+                pos = have.index(line, pos) + 1
+            except ValueError:
+                problems.append(f"{name}: description on the page is not the member's own docstring (line {line!r} missing)")
+                break
         row = _ROW.search(block)
         if "row" in m:
             if row is None:
